@@ -10,6 +10,9 @@ theorem ARINCWord_unpack_state_independent (t u : Word) (buf : Bytes) (h : (Word
   repeat' split
   all_goals simp_all
 
+/-- non-vacuity: a word object whose every field is set decodes an 8-byte word successfully -/
+example : (Word.unpack ⟨1, true, true, 1, 9, [9, 9, 9, 9]⟩ [0x0E, 0x10, 0x80, 200, 1, 2, 3, 4]).2 = .ok () := rfl
+
 theorem ARINC_pack_preserves_fields (p : Packet) : p.pack.1 = { p with msgcount := p.arincwords.length } := by
   simp only [Packet.pack]; repeat' split
   all_goals rfl
@@ -25,5 +28,14 @@ theorem ARINC_unpack_state_independent (t u : Packet) (buf : Bytes) (h : (Packet
   simp only [Packet.unpack]
   repeat' split
   all_goals simp_all
+
+/-- non-vacuity: a packet object that already holds a word (and a stale count) decodes the encoding of a
+    two-word packet successfully, and ends with exactly the two words -/
+example :
+    let a : Packet := ⟨0, [⟨4110, true, false, 1, 200, [1, 2, 3, 4]⟩, ⟨0, false, true, 0, 0, [0, 0, 0, 0]⟩]⟩
+    let t : Packet := ⟨7, [⟨1, false, false, 0, 9, [9, 9, 9, 9]⟩]⟩
+    ∃ b, a.pack.2 = .ok b ∧ b.length = 20 ∧ (Packet.unpack t b).2 = .ok () ∧
+      (Packet.unpack t b).1.arincwords = a.arincwords :=
+  ⟨_, rfl, rfl, rfl, rfl⟩
 
 end Acra.Props.C13
